@@ -1,7 +1,11 @@
 /-
   Engine `dispatch` (C04).  Same line protocol as harness/dispatch.cpp:
 
-    D <table> <locsize>+<slack> <msg>;<msg>;… [tokens for the oracle, ignored]
+    D <table> <locsize>+<slack>[+k] <msg>;<msg>;… [tokens for the oracle, ignored]
+        `+k`: the two RtData objects (with / without location buffer) are set up once and kept for all
+        messages of the line (an operation history on one RtData: every dispatch starts with the
+        d.obj, d.port, d.loc, d.matches the one before left behind); without it every message gets
+        fresh ones
         <table> = T<0|1>[<entry>,<entry>,…]      0/1: the table has a default handler
                 | T<0|1>c[<entry>,…]{i.j.…}      the table that is dispatched is
                                                   `ClonePorts(src, {{src[i].name, cb}, {src[j].name, cb}, …})`
@@ -14,7 +18,8 @@
                   has exactly message size + slack bytes)
         <msg>   = <B|S><address-hex>:<tags-hex>  B: dispatch(msg, d, true), S: dispatch(msg, d)
       -> per message  <with location buffer>/<without>,  messages separated by '|':
-           [<call>;<call>;…]m<matches>p<d.port|-|*>l<ok|loc-hex> / [<call>;…]p<d.port|-|*>
+           [<call>;<call>;…]m<matches>p<d.port|-|*>l<ok|loc-hex>o<d.obj> / [<call>;…]p<d.port|-|*>o<d.obj>
+           (<d.obj>: the object in d.obj after the dispatch, printed like <obj path>)
            <call> = <P|D><path>@<offset of msg>,<loc-hex|NULL>,<obj path>,<d.port|-|*>
            <path> = table indices joined by '.', 'r' for the root
          Only what the property observes, in canonical form: the calls as a sorted multiset
@@ -198,7 +203,15 @@ def zeros (n : Nat) : Bytes := List.replicate n 0
 def buildMsg (slack : Nat) (addr tags : Bytes) : Bytes :=
   Match.mkMsg addr tags (zeros ((tags.map Match.zeroArgSize).sum + slack))
 
-def oneMsg (sugar : Bool) (mk : List Bytes → Option Matcher) (P : Ports) (locSize slack : Nat) (tok : String) : String :=
+/-- the two `RtData` objects of an op line as the harness sets them up: with location buffer, without -/
+def freshData (locSize : Nat) : RtData × RtData :=
+  let dL : RtData := { loc := some [], locSize := locSize, locHigh := 0, obj := [], nmatches := 0, port := none }
+  (dL, { dL with loc := none, locSize := 0 })
+
+/-- one message dispatched with `dd.1` (location buffer) and `dd.2` (none); returns the text and the two
+    `RtData` as the dispatches left them (unchanged when the model leaves a buffer) -/
+def oneMsg (sugar : Bool) (mk : List Bytes → Option Matcher) (P : Ports) (locSize slack : Nat)
+    (dd : RtData × RtData) (tok : String) : String × (RtData × RtData) :=
   match tok.toList with
   | k :: rest =>
     match (String.ofList rest).splitOn ":" with
@@ -209,24 +222,31 @@ def oneMsg (sugar : Bool) (mk : List Bytes → Option Matcher) (P : Ports) (locS
         let msg := buildMsg slack addr tags
         let md : Mode := { sugar := sugar, root := P.tab,
                            m0 := if base && msg.head? == some 47 then msg.drop 1 else msg }
-        let dL : RtData := { loc := some [], locSize := locSize, locHigh := 0, obj := [], nmatches := 0, port := none }
-        let dN : RtData := { dL with loc := none, locSize := 0 }
-        match dispatch mk P msg dL base, dispatch mk P msg dN base with
+        match dispatch mk P msg dd.1 base, dispatch mk P msg dd.2 base with
         | some (l1, d1), some (l2, d2) =>
-          if d1.locHigh > locSize then "oob"
-          else s!"{showCalls md msg.length l1}m{d1.nmatches}p{showFinalPort md l1 d1.port}l{showFinalLoc d1.loc}/{showCalls md msg.length l2}p{showFinalPort md l2 d2.port}"
-        | _, _ => "oob"
-      | _, _ => "bad-msg"
-    | _ => "bad-msg"
-  | [] => "bad-msg"
+          if d1.locHigh > locSize then ("oob", dd)
+          else (s!"{showCalls md msg.length l1}m{d1.nmatches}p{showFinalPort md l1 d1.port}l{showFinalLoc d1.loc}o{showObj md d1.obj}/{showCalls md msg.length l2}p{showFinalPort md l2 d2.port}o{showObj md d2.obj}", (d1, d2))
+        | _, _ => ("oob", dd)
+      | _, _ => ("bad-msg", dd)
+    | _ => ("bad-msg", dd)
+  | [] => ("bad-msg", dd)
 
-def opD (sugar : Bool) (tab : String) (locSize slack : Nat) (msgs : String) : String :=
+/-- the messages of a line, one after the other; `keep`: on the same two `RtData` objects, else on fresh
+    ones for every message -/
+def runMsgs (sugar : Bool) (mk : List Bytes → Option Matcher) (P : Ports) (locSize slack : Nat) (keep : Bool) :
+    RtData × RtData → List String → List String
+  | _, [] => []
+  | dd, tok :: r =>
+    let (txt, dd') := oneMsg sugar mk P locSize slack dd tok
+    txt :: runMsgs sugar mk P locSize slack keep (if keep then dd' else freshData locSize) r
+
+def opD (sugar : Bool) (tab : String) (locSize slack : Nat) (keep : Bool) (msgs : String) : String :=
   match parseTable tab.toList with
   | some (P, []) =>
     let f := matcherOf realSearch
     let cache := buildCacheFor f P
     let mk := cachedMk f cache
-    "|".intercalate ((msgs.splitOn ";").map (oneMsg sugar mk P locSize slack))
+    "|".intercalate (runMsgs sugar mk P locSize slack keep (freshData locSize) (msgs.splitOn ";"))
   | _ => "bad-op"
 
 def strategies (f : List Bytes → Option Matcher) : Table → List String
@@ -255,7 +275,11 @@ def step (line : String) : String :=
     match ls.splitOn "+" with
     | [a, b] =>
       match a.toNat?, b.toNat? with
-      | some locSize, some slack => opD (k == "R") tab locSize slack msgs
+      | some locSize, some slack => opD (k == "R") tab locSize slack false msgs
+      | _, _ => "bad-op"
+    | [a, b, "k"] =>
+      match a.toNat?, b.toNat? with
+      | some locSize, some slack => opD (k == "R") tab locSize slack true msgs
       | _, _ => "bad-op"
     | _ => "bad-op"
   | _ => "bad-op"
